@@ -105,7 +105,7 @@ def prop_all(case):
     return {"nt": nt > 0, "orders": n, "version": doc["version"]}
 
 
-DOC_OPTS = {"both_forms": False, "shuffle": False, "split_groups": 0.3, "twin_custom": 0.3, "zero_len": 0.08}
+DOC_OPTS = {"both_forms": False, "shuffle": False, "split_groups": 0.3, "twin_custom": 0.3, "zero_len": 0.08, "near_names": 0.3}
 
 
 def _keep_group_order(doc, perm):
